@@ -24,6 +24,7 @@ import (
 	"strconv"
 	"strings"
 	"sync"
+	"sync/atomic"
 	"time"
 )
 
@@ -209,8 +210,16 @@ func runWorkers(bin string, sc scnSpec, sd uint64, budget time.Duration, tmp str
 				if sc.Count > 0 {
 					args = append(args, fmt.Sprintf("-sim.count=%d", left))
 				}
+				chunked := false
 				if sc.Flavour == "race" {
 					args = append(args, "-sim.parallel")
+					if sc.Count == 0 {
+						// a fresh process every few hundred runs: the detector's
+						// own bookkeeping (stack depot, shadow memory) does not
+						// age well over tens of thousands of bubbles
+						args = append(args, fmt.Sprintf("-sim.count=%d", raceRunsPerProcess))
+						chunked = true
+					}
 				}
 				cmd := exec.Command(bin, args...)
 				if sc.MemLimitKB > 0 {
@@ -230,8 +239,28 @@ func runWorkers(bin string, sc scnSpec, sd uint64, budget time.Duration, tmp str
 				if err == nil {
 					if rerr != nil {
 						errs[w] = rerr
+						return
+					}
+					if chunked && len(ls) >= raceRunsPerProcess && time.Until(deadline) > 0 {
+						from = ls[len(ls)-1].Run + uint64(n)
+						continue
 					}
 					return
+				}
+				if sc.Flavour == "race" && detectorCrash(string(ob)) {
+					// the race detector's own runtime crashed (a SIGSEGV on the
+					// system stack inside the sanitizer): machinery, not the
+					// code under test. The run in flight is skipped and counted;
+					// more than a few of these fail the check (exit 2).
+					cur, _ := os.ReadFile(out + ".cur")
+					run, _ := strconv.ParseUint(strings.TrimSpace(string(cur)), 10, 64)
+					if k := detectorCrashes.Add(1); k > 6 {
+						errs[w] = fmt.Errorf("worker %d: the race detector's runtime crashed %d times", w, k)
+						return
+					}
+					fmt.Fprintf(os.Stderr, "runner: NOTE the race detector's runtime crashed in %s seed=%d run=%d (worker %d restarted, run skipped)\n", sc.Name, sd, run, w)
+					from = run + uint64(n)
+					continue
 				}
 				// A worker that died inside library code (panic / fatal error with a
 				// kafka-go frame on the crashing stack) is a finding about the code
@@ -275,6 +304,31 @@ func runWorkers(bin string, sc scnSpec, sd uint64, budget time.Duration, tmp str
 	}
 	sort.Slice(all, func(i, j int) bool { return all[i].Run < all[j].Run })
 	return all, nil
+}
+
+const raceRunsPerProcess = 400
+
+var detectorCrashes atomic.Int64
+
+// detectorCrash recognises a crash of the sanitizer runtime itself: a
+// synchronous signal taken on a system stack (goroutine 0) with no Go frames.
+func detectorCrash(out string) bool {
+	i := strings.Index(out, "SIGSEGV: segmentation violation")
+	if i < 0 {
+		return false
+	}
+	rest := out[i:]
+	j := strings.Index(rest, "\ngoroutine ")
+	if j < 0 {
+		return false
+	}
+	hdr := rest[j+1:]
+	if k := strings.IndexByte(hdr, '\n'); k >= 0 {
+		// the crashing goroutine is goroutine 0 and its block has no frames
+		blockEnd := strings.Index(hdr, "\n\n")
+		return strings.HasPrefix(hdr, "goroutine 0 ") && (blockEnd < 0 || blockEnd <= k+1)
+	}
+	return false
 }
 
 // libraryCrash recognises a Go panic / fatal error whose crashing goroutine
@@ -852,6 +906,8 @@ func cmdCheck(prop, tier string) int {
 			"workers":                workerCount(),
 			"real_vs_stub":           stubTable,
 			"goroutine_leak_reports": total.leaks,
+			// race flavour only: crashes of the sanitizer runtime itself (worker restarted, run skipped)
+			"race_detector_runtime_crashes": detectorCrashes.Load(),
 		},
 	}
 	os.MkdirAll(filepath.Join(verif, "evidence"), 0o755)
